@@ -211,6 +211,36 @@ static int nv_finish(void)
 	return 0;
 }
 
+/* watchdog: a case that does not finish within the horizon is reported as a violation (slug-hang) */
+#include <signal.h>
+static char nv_guard_desc[1024];
+static char nv_guard_slug[64];
+static void nv_guard_alarm(int sig)
+{
+	char buf[1400];
+	int n = snprintf(buf, sizeof(buf), "VIOL %s\tkind=hang no result within the horizon: %s\nSTAT deadline_hit 1\n", nv_guard_slug, nv_guard_desc);
+	(void) sig;
+	if (nv_out)
+		fflush(nv_out);
+	if (write(nv_out ? fileno(nv_out) : 1, buf, n) < 0)
+		_exit(3);
+	_exit(0);
+}
+static void nv_guard(int seconds, const char *slug, const char *fmt, ...)
+{
+	va_list ap;
+	static int installed;
+	if (!installed) {
+		signal(SIGALRM, nv_guard_alarm);
+		installed = 1;
+	}
+	snprintf(nv_guard_slug, sizeof(nv_guard_slug), "%s", slug);
+	va_start(ap, fmt);
+	vsnprintf(nv_guard_desc, sizeof(nv_guard_desc), fmt, ap);
+	va_end(ap);
+	alarm(seconds);
+}
+
 /* small open-addressing set of 64-bit hashes, to count distinct things */
 struct nv_set { unsigned long long *t; long cap, n; };
 static void nv_set_init(struct nv_set *s, long cap)
